@@ -3,6 +3,8 @@
 # conditions that call the comparator are transcribed by hand in PQueueModel.v (rationals / Section variable).
 _F = "src/cc_pqueue.c"
 GUARDS = [
+  ("g_pq_new_bytes", _F, "cc_pqueue_new_conf", ("if", 2), ["capacity", "SIZE_MAX"], "(SIZE_MAX / 8 <? capacity)"),
+  ("g_pq_expand_bytes", _F, "expand_capacity", ("if", 2), ["new_capacity", "SIZE_MAX"], "(SIZE_MAX / 8 <? new_capacity)"),
   ("g_pq_expand_max", _F, "expand_capacity", ("if", 0), ["capacity"], "(capacity =? CC_MAX_ELEMENTS)"),
   ("g_pq_expand_overflow", _F, "expand_capacity", ("if", 1), ["new_capacity", "capacity"], "(new_capacity <=? capacity)"),
   ("g_pq_push_full", _F, "cc_pqueue_push", ("if", 0), ["i", "capacity"], "(capacity <=? i)"),
